@@ -779,7 +779,7 @@ func runStrategy(cs *caseSpec, dfsMax int) {
 		runs, bad := 0, 0
 		seenKinds := map[string]int{}
 		emitAll := len(cs.strategy) > 1 && cs.strategy[1] == "all"
-		wfSteps, wfNodes := 0, 0 // over the runs that are not emitted
+		wfSteps, wfNodes, quiet := 0, 0, 0 // over the runs that are not emitted
 		for {
 			sched, lines, oracles, en := runCase(cs, nil, prefix, true)
 			runs++
@@ -796,6 +796,7 @@ func runStrategy(cs *caseSpec, dfsMax int) {
 			if emitAll || newKind || runs == 1 {
 				emitRun(cs, sched, lines, oracles)
 			} else if cs.writeframe {
+				quiet++
 				for _, l := range lines {
 					if strings.HasPrefix(l, "# writeframe steps ") {
 						f := strings.Fields(l)
@@ -818,7 +819,7 @@ func runStrategy(cs *caseSpec, dfsMax int) {
 			}
 			if i < 0 || runs >= dfsMax {
 				if cs.writeframe {
-					fmt.Fprintf(out, "dfs case %s runs %d bad %d exhaustive %v wfsteps %d wfnodes %d\n", cs.id, runs, bad, i < 0, wfSteps, wfNodes)
+					fmt.Fprintf(out, "dfs case %s runs %d bad %d exhaustive %v quiet %d wfsteps %d wfnodes %d\n", cs.id, runs, bad, i < 0, quiet, wfSteps, wfNodes)
 				} else {
 					fmt.Fprintf(out, "dfs case %s runs %d bad %d exhaustive %v\n", cs.id, runs, bad, i < 0)
 				}
